@@ -44,7 +44,16 @@
 #include "stir/recon_buildblock/find_basic_vs_nums_in_subsets.h"
 #include "stir/Succeeded.h"
 #include "stir/num_threads.h"
+#include "stir/listmode/ListModeData.h"
+#include "stir/listmode/CListRecord.h"
+#include "stir/listmode/ListTime.h"
+#include "stir/listmode/CListEventCylindricalScannerWithDiscreteDetectors.h"
+#include "stir/TimeFrameDefinitions.h"
+#include "stir/recon_buildblock/PoissonLogLikelihoodWithLinearModelForMeanAndListModeDataWithProjMatrixByBin.h"
 #include <omp.h>
+#include <spawn.h>
+#include <signal.h>
+#include <sys/wait.h>
 #include <mutex>
 #include <map>
 #include <cmath>
@@ -59,6 +68,7 @@
 
 using namespace stir;
 typedef DiscretisedDensity<3, float> Image;
+extern char** environ;
 
 struct Event
 {
@@ -70,6 +80,7 @@ struct Event
 static std::mutex g_mx;
 static std::vector<Event> g_log;
 static bool g_logging = false;
+static bool g_perturb_only = false; // child process of `clear_cache`: perturb at the schedule points, record nothing
 static uint64_t g_seed = 1;
 static int g_round = 0;
 // events of the scatter cache are far too many to be listed one by one (and no validator reads them): they are counted
@@ -100,7 +111,11 @@ extern "C" void
 stir_verif_sched_point(const char* site, long key, int value)
 {
   if (!g_logging)
-    return;
+    {
+      if (g_perturb_only)
+        perturb(false);
+      return;
+    }
   if (site[0] == 's' && site[1] == 'c' && site[2] == '.')
     {
       ++g_sc_reads;
@@ -121,13 +136,37 @@ static FILE *ops, *out, *orc;
 static long oracle_checks = 0, oracle_fails = 0;
 static long n_events = 0;
 
+// `threads <T>` lines of the trace being recorded: (position in g_log, number of threads in force from there on).  The driver checks
+// that no event after the line comes from a thread >= T and counts the work items of every such segment on their own.
+static std::vector<std::pair<std::size_t, int>> g_marks;
+// The events of the lazily built geometry tables identify their object by its address.  The list-mode objective function creates and
+// destroys ProjDataInfo objects while it runs (clones per record / per set_up), so that an address names several objects in turn and
+// "built twice" would be reported for what are two objects: the table events are left out of the traces of those scenarios.
+static bool g_drop_table_events = false;
+
 static void
 start_trace()
 {
   std::lock_guard<std::mutex> lk(g_mx);
   g_log.clear();
+  g_marks.clear();
   ++g_round;
   g_logging = true;
+}
+
+static void
+mark_threads(int T)
+{
+  std::lock_guard<std::mutex> lk(g_mx);
+  g_marks.push_back(std::make_pair(g_log.size(), T));
+}
+
+// an operation outside the traces (answered by the executable model)
+static void
+op(const std::string& o, const std::string& answer)
+{
+  std::fprintf(ops, "%s\n", o.c_str());
+  std::fprintf(out, "%s\n", answer.c_str());
 }
 
 // Prints the recorded events [from, to) as one trace.  only_site != "": only the events of that site (a view of a part of a
@@ -142,10 +181,22 @@ emit_trace(const std::string& name, int expected_bp, int expected_fp, int expect
   // canonicalise pointer-valued keys (object identities) by order of first appearance
   std::map<long, long> ids;
   to = std::min(to, g_log.size());
-  for (std::size_t i = from; i < to; ++i)
+  const bool whole = from == 0 && to == g_log.size() && only_site.empty();
+  std::size_t next_mark = 0;
+  for (std::size_t i = from; i <= to; ++i)
     {
+      while (whole && next_mark < g_marks.size() && g_marks[next_mark].first <= i)
+        {
+          std::fprintf(ops, "threads %d\n", g_marks[next_mark].second);
+          std::fprintf(out, ".\n");
+          ++next_mark;
+        }
+      if (i == to)
+        break;
       const Event& e = g_log[i];
       if (!only_site.empty() && e.site != only_site)
+        continue;
+      if (g_drop_table_events && e.site.compare(0, 4, "pdi.") == 0)
         continue;
       long k = e.key;
       if (e.site.compare(0, 4, "pdi.") == 0 || e.site.compare(0, 9, "bp.local.") == 0 || e.site == "bp.reduce")
@@ -434,9 +485,9 @@ scenario_project(vh::Rng& rng, int T, bool tiny)
 
 // ---------------------------------------------------------------- scenario: log-likelihood
 static void
-scenario_loglik(vh::Rng& rng, int T)
+scenario_loglik(vh::Rng& rng, int T, bool tiny = false)
 {
-  Problem p = make_problem(rng, false);
+  Problem p = make_problem(rng, tiny);
   Image& x = *p.image;
   fill_image(x, rng, true);
   shared_ptr<ProjData> y(new ProjDataInMemory(p.exam, p.pdi));
@@ -617,6 +668,57 @@ max_abs(const Image& im)
   return mx;
 }
 
+// Everything the objective function can be asked, subset by subset, at c.x (with c.dir as the vector of the Hessian products).
+static void
+ask_everything(LLObj& obj, const Problem& p, const ProjMatrixByBin& pm, const LLConfig& c, LLResult& r, const std::function<void()>& begin_pass,
+               const std::function<void(const std::string&, int)>& end_pass)
+{
+  const Image& x = *c.x;
+  for (int s = 0; s < c.nsub; ++s)
+    {
+      const int n = num_items_in_subset(p, pm, s, c.nsub);
+      const std::string tag = "[subset " + std::to_string(s) + "/" + std::to_string(c.nsub) + "]";
+      auto add_image = [&](const std::string& name, shared_ptr<Image> im, double scale) {
+        r.names.push_back(name + tag);
+        r.images.push_back(im);
+        r.scales.push_back(scale);
+      };
+      // value
+      begin_pass();
+      r.values.push_back(obj.compute_objective_function(x, s));
+      end_pass("value", n);
+      // sensitivity of the subset, computed afresh
+      shared_ptr<Image> sens(x.get_empty_copy());
+      begin_pass();
+      obj.add_subset_sensitivity(*sens, s);
+      end_pass("sens", p.pdi->is_tof_data() ? 0 : n); // (TOF data: the sensitivity uses the non-TOF geometry)
+      const double sens_max = max_abs(*sens);
+      add_image("add_subset_sensitivity", sens, 0);
+      add_image("subset sensitivity computed by set_up", shared_ptr<Image>(obj.get_subset_sensitivity(s).clone()), 0);
+      // gradient + sensitivity, gradient
+      shared_ptr<Image> gps(x.get_empty_copy());
+      begin_pass();
+      obj.compute_sub_gradient_without_penalty_plus_sensitivity(*gps, x, s);
+      end_pass("gradps", n);
+      add_image("sub-gradient plus sensitivity", gps, 0);
+      shared_ptr<Image> grad(x.get_empty_copy());
+      begin_pass();
+      obj.compute_sub_gradient(*grad, x, s);
+      end_pass("grad", n);
+      // the gradient is (back projection of the quotient) - sensitivity: its rounding error is that of the two parts
+      add_image("sub-gradient", grad, max_abs(*gps) + sens_max);
+      // Hessian products
+      shared_ptr<Image> hess(x.get_empty_copy());
+      if (obj.accumulate_sub_Hessian_times_input(*hess, x, *c.dir, s) != Succeeded::yes)
+        r.error = "accumulate_sub_Hessian_times_input failed";
+      add_image("accumulate_sub_Hessian_times_input", hess, 0);
+      shared_ptr<Image> ahess(x.get_empty_copy());
+      if (obj.add_multiplication_with_approximate_sub_Hessian(*ahess, *c.dir, s) != Succeeded::yes)
+        r.error = "add_multiplication_with_approximate_sub_Hessian failed";
+      add_image("add_multiplication_with_approximate_sub_Hessian", ahess, 0);
+    }
+}
+
 // One fresh objective function (fresh matrix, projectors, normalisation object) asked for everything with `threads` threads.
 static LLResult
 run_ll(const Problem& p, const LLConfig& c, shared_ptr<ProjData> y, shared_ptr<ProjData> add, shared_ptr<ProjData> normdata,
@@ -664,49 +766,7 @@ run_ll(const Problem& p, const LLConfig& c, shared_ptr<ProjData> y, shared_ptr<P
           g_logging = false;
           return r;
         }
-      for (int s = 0; s < c.nsub; ++s)
-        {
-          const int n = num_items_in_subset(p, *pm, s, c.nsub);
-          const std::string tag = "[subset " + std::to_string(s) + "/" + std::to_string(c.nsub) + "]";
-          auto add_image = [&](const std::string& name, shared_ptr<Image> im, double scale) {
-            r.names.push_back(name + tag);
-            r.images.push_back(im);
-            r.scales.push_back(scale);
-          };
-          // value
-          begin_pass();
-          r.values.push_back(obj.compute_objective_function(x, s));
-          end_pass("value", n);
-          // sensitivity of the subset, computed afresh
-          shared_ptr<Image> sens(x.get_empty_copy());
-          begin_pass();
-          obj.add_subset_sensitivity(*sens, s);
-          end_pass("sens", p.pdi->is_tof_data() ? 0 : n); // (TOF data: the sensitivity uses the non-TOF geometry)
-          const double sens_max = max_abs(*sens);
-          add_image("add_subset_sensitivity", sens, 0);
-          add_image("subset sensitivity computed by set_up", shared_ptr<Image>(obj.get_subset_sensitivity(s).clone()), 0);
-          // gradient + sensitivity, gradient
-          shared_ptr<Image> gps(x.get_empty_copy());
-          begin_pass();
-          obj.compute_sub_gradient_without_penalty_plus_sensitivity(*gps, x, s);
-          end_pass("gradps", n);
-          add_image("sub-gradient plus sensitivity", gps, 0);
-          shared_ptr<Image> grad(x.get_empty_copy());
-          begin_pass();
-          obj.compute_sub_gradient(*grad, x, s);
-          end_pass("grad", n);
-          // the gradient is (back projection of the quotient) - sensitivity: its rounding error is that of the two parts
-          add_image("sub-gradient", grad, max_abs(*gps) + sens_max);
-          // Hessian products
-          shared_ptr<Image> hess(x.get_empty_copy());
-          if (obj.accumulate_sub_Hessian_times_input(*hess, x, *c.dir, s) != Succeeded::yes)
-            r.error = "accumulate_sub_Hessian_times_input failed";
-          add_image("accumulate_sub_Hessian_times_input", hess, 0);
-          shared_ptr<Image> ahess(x.get_empty_copy());
-          if (obj.add_multiplication_with_approximate_sub_Hessian(*ahess, *c.dir, s) != Succeeded::yes)
-            r.error = "add_multiplication_with_approximate_sub_Hessian failed";
-          add_image("add_multiplication_with_approximate_sub_Hessian", ahess, 0);
-        }
+      ask_everything(obj, p, *pm, c, r, begin_pass, end_pass);
       if (trace)
         {
           emit_trace(scen, 0, 0, 0);
@@ -835,9 +895,9 @@ value_hammer(vh::Rng& rng, int T)
 
 // ---------------------------------------------------------------- scenario: loglik_full
 static void
-scenario_loglik_full(vh::Rng& rng, int T)
+scenario_loglik_full(vh::Rng& rng, int T, bool tiny = false)
 {
-  Problem p = make_problem(rng, false);
+  Problem p = make_problem(rng, tiny);
   LLConfig c;
   c.x = p.image;
   fill_image(*c.x, rng, true);
@@ -873,7 +933,8 @@ scenario_loglik_full(vh::Rng& rng, int T)
     }
   LLResult par = run_ll(p, c, y, add, norm, T, true, "loglik_full");
   compare_ll("loglik_full", T, ref, par);
-  value_hammer(rng, T);
+  if (!tiny)
+    value_hammer(rng, T);
 }
 
 // ---------------------------------------------------------------- scenario: projdata_stream
@@ -1198,11 +1259,24 @@ blank_image(int nz, int nxy, float vz, float vxy)
   return im;
 }
 
-static void
-scenario_scatter(vh::Rng& rng, int T)
+// scanner, energy window, activity / attenuation / scatter-point images of one scatter simulation
+struct ScatterCfg
 {
+  int N, R;
+  shared_ptr<ProjDataInfo> pdi;
+  shared_ptr<ExamInfo> exam;
+  shared_ptr<Vox> act, att, sp;
+};
+
+// tiny: 12 detectors x 1 ring, i.e. 5 bins per viewgram (the library's parallel loop runs over the bins of one viewgram)
+static ScatterCfg
+make_scatter_cfg(vh::Rng& rng, bool tiny)
+{
+  ScatterCfg c;
   static const int Ns[] = { 12, 16, 20, 24 };
-  const int N = Ns[rng.range(0, 3)], R = rng.range(1, 3);
+  const int N = tiny ? 12 : Ns[rng.range(0, 3)], R = tiny ? 1 : rng.range(1, 3);
+  c.N = N;
+  c.R = R;
   shared_ptr<Scanner> scanner = vh::make_scanner(N, R);
   scanner->set_energy_resolution(0.10F + 0.02F * rng.range(0, 3));
   shared_ptr<ProjDataInfo> pdi = vh::make_pdi(scanner, 1, R - 1, N / 2, N / 2 - 1);
@@ -1230,6 +1304,21 @@ scenario_scatter(vh::Rng& rng, int T)
           ++n;
         }
   }
+  c.pdi = pdi;
+  c.exam = exam;
+  c.act = act;
+  c.att = att;
+  c.sp = sp;
+  return c;
+}
+
+static void
+scenario_scatter(vh::Rng& rng, int T, bool tiny = false)
+{
+  const ScatterCfg cfg = make_scatter_cfg(rng, tiny);
+  const shared_ptr<ProjDataInfo> pdi = cfg.pdi;
+  const shared_ptr<ExamInfo> exam = cfg.exam;
+  const shared_ptr<Vox> act = cfg.act, att = cfg.att, sp = cfg.sp;
   struct Out
   {
     bool ok = false;
@@ -1346,31 +1435,1019 @@ scenario_scatter(vh::Rng& rng, int T)
   stir::set_num_threads(1);
 }
 
+// ================================================================================================================================
+// scenario family `rethread`: the number of threads is changed (stir::set_num_threads) during the life of an object.
+// An object that was set up and used with N threads and is then used with M threads must still give the single-thread result:
+// accumulators of threads that no longer run must not contribute stale data; for more threads than the object was set up
+// with, set_up() is called again (the call that sizes the per-thread buffers) before the object is used.
+// ================================================================================================================================
+static const int g_pairs[4][2] = { { 7, 2 }, { 2, 7 }, { 16, 1 }, { 4, 4 } };
+
+static std::string
+ints(const std::vector<int>& v)
+{
+  std::string s;
+  for (int x : v)
+    s += " " + std::to_string(x);
+  return s;
+}
+
+// ---------------------------------------------------------------- rethread.project
+// One forward and one back projector, used three times (N, M, N threads), every time on other data.  The per-thread images of the
+// back projector are also followed in the executable model (`acc` operations: which slots exist, which threads filled one, which are
+// summed by get_output).
+static void
+scenario_rethread_project(vh::Rng& rng, int N, int M)
+{
+  Problem p = make_problem(rng, false);
+  Image& x = *p.image;
+  fill_image(x, rng, false);
+  const int thr[3] = { N, M, N };
+  std::vector<shared_ptr<ProjDataInMemory>> y;
+  for (int k = 0; k < 3; ++k)
+    {
+      y.push_back(shared_ptr<ProjDataInMemory>(new ProjDataInMemory(p.exam, p.pdi)));
+      fill_data(*y[k], rng, -4, 4);
+    }
+  const std::string ctx = "rethread.project (" + std::to_string(N) + "->" + std::to_string(M) + "->" + std::to_string(N) + " threads)";
+  // single-thread references from a fresh pair of projectors
+  stir::set_num_threads(1);
+  std::vector<shared_ptr<Image>> ref;
+  ProjDataInMemory fwd_ref(p.exam, p.pdi);
+  int n_items = 0;
+  {
+    shared_ptr<ProjMatrixByBinUsingRayTracing> pm = make_matrix(p, true);
+    n_items = num_items_in_subset(p, *pm, 0, 1);
+    ForwardProjectorByBinUsingProjMatrixByBin fp(pm);
+    BackProjectorByBinUsingProjMatrixByBin bp(pm);
+    fp.set_up(p.pdi, p.image);
+    bp.set_up(p.pdi, p.image);
+    for (int k = 0; k < 3; ++k)
+      {
+        ref.push_back(shared_ptr<Image>(x.get_empty_copy()));
+        bp.back_project(*ref[k], *y[k]);
+      }
+    fp.forward_project(fwd_ref, x);
+  }
+  double fwd_max = 0;
+  for (auto it = fwd_ref.begin_all(); it != fwd_ref.end_all(); ++it)
+    fwd_max = std::max(fwd_max, std::fabs(static_cast<double>(*it)));
+  // the live objects
+  stir::set_num_threads(N);
+  shared_ptr<ProjMatrixByBinUsingRayTracing> pm = make_matrix(p, true);
+  ForwardProjectorByBinUsingProjMatrixByBin fp(pm);
+  BackProjectorByBinUsingProjMatrixByBin bp(pm);
+  start_trace(); // one trace for the whole life of the objects (the cache validator needs the whole history of the cache)
+  fp.set_up(p.pdi, p.image);
+  bp.set_up(p.pdi, p.image);
+  std::vector<std::pair<std::string, std::string>> acc; // operations on the model of the per-thread images, with the implementation's answers
+  acc.push_back(std::make_pair("acc new", "."));
+  acc.push_back(std::make_pair("acc setup " + std::to_string(N), "."));
+  int slots = N;
+  for (int k = 0; k < 3; ++k)
+    {
+      const int T = thr[k];
+      stir::set_num_threads(T);
+      // more threads than per-thread images: set_up() again (required); otherwise only now and then (it would drop the images of the
+      // threads that no longer run, which is exactly what must not be needed)
+      const bool again = T > slots || (k > 0 && T != slots && rng.range(0, 3) == 0);
+      if (again)
+        {
+          fp.set_up(p.pdi, p.image);
+          bp.set_up(p.pdi, p.image);
+          slots = T;
+          acc.push_back(std::make_pair("acc setup " + std::to_string(T), "."));
+        }
+      mark_threads(T);
+      const std::size_t from = g_log.size();
+      shared_ptr<Image> bck(x.get_empty_copy());
+      ProjDataInMemory fwd(p.exam, p.pdi);
+      bp.back_project(*bck, *y[k]);
+      fp.forward_project(fwd, x);
+      const std::size_t to = g_log.size();
+      {
+        std::vector<int> workers, reduced;
+        for (std::size_t i = from; i < to; ++i)
+          if (g_log[i].site == "bp.work")
+            workers.push_back(g_log[i].val);
+          else if (g_log[i].site == "bp.reduce")
+            reduced.push_back(g_log[i].val);
+        acc.push_back(std::make_pair("acc pass" + ints(workers), "."));
+        acc.push_back(std::make_pair("acc output", "slots" + ints(reduced)));
+      }
+      const std::string phase = ctx + ", use " + std::to_string(k + 1) + " with " + std::to_string(T) + " threads" + (again ? " after a new set_up" : "");
+      std::string why;
+      ++oracle_checks;
+      if (!images_close(*bck, *ref[k], 2e-5, why))
+        fail(phase + ": back projection differs from the single-thread result of fresh projectors beyond reassociation: " + why);
+      ++oracle_checks;
+      auto ip = fwd.begin_all();
+      for (auto it = fwd_ref.begin_all(); it != fwd_ref.end_all(); ++it, ++ip)
+        if (!(std::fabs(static_cast<double>(*it) - *ip) <= 1e-5 * fwd_max))
+          {
+            fail(phase + ": forward projection differs from the single-thread result (" + vh::hex(*ip) + " vs " + vh::hex(*it) + ")");
+            break;
+          }
+    }
+  emit_trace("rethread.project", n_items, n_items, 0);
+  for (auto& a : acc)
+    op(a.first, a.second);
+  stir::set_num_threads(1);
+}
+
+// ---------------------------------------------------------------- rethread.loglik
+// One objective function (one matrix, one projector pair), asked for everything three times (N, M, N threads), every time at another image.
+static void
+scenario_rethread_loglik(vh::Rng& rng, int N, int M)
+{
+  Problem p = make_problem(rng, false);
+  const int thr[3] = { N, M, N };
+  std::vector<LLConfig> cs(3);
+  shared_ptr<Image> dir(p.image->get_empty_copy());
+  fill_image(*dir, rng, true);
+  for (int k = 0; k < 3; ++k)
+    {
+      cs[k].x.reset(p.image->clone());
+      fill_image(*cs[k].x, rng, true);
+      cs[k].dir = dir;
+    }
+  shared_ptr<ProjData> y(new ProjDataInMemory(p.exam, p.pdi));
+  fill_data(*y, rng, 0, 6);
+  shared_ptr<ProjData> add, norm;
+  if (rng.range(0, 2) != 0)
+    {
+      add.reset(new ProjDataInMemory(p.exam, p.pdi));
+      fill_data(*add, rng, 1, 3);
+    }
+  if (rng.coin())
+    {
+      norm.reset(new ProjDataInMemory(p.exam, p.pdi));
+      fill_data(*norm, rng, 1, 3);
+    }
+  const bool zero_ends = rng.range(0, 3) == 0;
+  int nsub = rng.range(1, 3);
+  for (int k = 0; k < 3; ++k)
+    {
+      cs[k].zero_ends = zero_ends;
+      cs[k].nsub = nsub;
+    }
+  const std::string scen = "rethread.loglik";
+  const std::string ctx = scen + " (" + std::to_string(N) + "->" + std::to_string(M) + "->" + std::to_string(N) + " threads)";
+  std::vector<LLResult> refs(3);
+  refs[0] = run_ll(p, cs[0], y, add, norm, 1, false, scen);
+  if (!refs[0].ok && nsub != 1)
+    {
+      nsub = 1;
+      for (int k = 0; k < 3; ++k)
+        cs[k].nsub = 1;
+      refs[0] = run_ll(p, cs[0], y, add, norm, 1, false, scen);
+    }
+  ++oracle_checks;
+  if (!refs[0].ok)
+    {
+      fail(scen + ": single-thread reference run failed: " + refs[0].error);
+      return;
+    }
+  for (int k = 1; k < 3; ++k)
+    refs[k] = run_ll(p, cs[k], y, add, norm, 1, false, scen);
+  // the live object
+  stir::set_num_threads(N);
+  std::vector<LLResult> par(3);
+  int k_now = 0;
+  try
+    {
+      shared_ptr<ProjMatrixByBinUsingRayTracing> pm = make_matrix(p, true);
+      shared_ptr<ProjectorByBinPair> pair(new ProjectorByBinPairUsingProjMatrixByBin(pm));
+      LLObj obj;
+      obj.set_proj_data_sptr(y);
+      obj.set_projector_pair_sptr(pair);
+      if (add)
+        obj.set_additive_proj_data_sptr(add);
+      if (norm)
+        obj.set_normalisation_sptr(shared_ptr<BinNormalisation>(new BinNormalisationFromProjData(norm)));
+      obj.set_zero_seg0_end_planes(zero_ends);
+      obj.set_num_subsets(nsub);
+      obj.set_recompute_sensitivity(true);
+      obj.set_use_subset_sensitivities(true);
+      start_trace();
+      mark_threads(N);
+      shared_ptr<Image> target(p.image->clone());
+      if (obj.set_up(target) != Succeeded::yes)
+        throw std::runtime_error("set_up failed");
+      int slots = N;
+      for (int k = 0; k < 3; ++k)
+        {
+          k_now = k;
+          const int T = thr[k];
+          stir::set_num_threads(T);
+          mark_threads(T);
+          const bool again = T > slots || (k > 0 && T != slots && rng.range(0, 3) == 0);
+          if (again)
+            {
+              if (obj.set_up(target) != Succeeded::yes)
+                throw std::runtime_error("second set_up failed");
+              slots = T;
+            }
+          ask_everything(obj, p, *pm, cs[k], par[k], []() {}, [](const std::string&, int) {});
+          par[k].ok = par[k].error.empty();
+        }
+      emit_trace(scen, 0, 0, 0);
+    }
+  catch (std::exception& e)
+    {
+      g_logging = false;
+      par[k_now].ok = false;
+      par[k_now].error = std::string("exception: ") + e.what();
+    }
+  for (int k = 0; k < 3; ++k)
+    compare_ll(ctx + ", use " + std::to_string(k + 1), thr[k], refs[k], par[k]);
+  stir::set_num_threads(1);
+}
+
+// ---------------------------------------------------------------- scatter.history (setter histories under threads, thread-count changes)
+// ONE simulation object: process_data with T1 threads, a setter is called again (kind), set_up, process_data with T2 threads.
+// With threads the detectors are numbered in the order in which the threads meet them, so a cache that survives a setter which
+// restarts the numbering is wrong only in multi-threaded runs.  Compared (bitwise) with fresh single-thread objects, and the same
+// history is also run with one thread.
+//   kind 0: nothing in between (the thread count only)          kind 1: set_template_proj_data_info with the same template
+//   kind 2: the same activity / attenuation / scatter-point images (equal copies) set again
+//   kind 3: another scatter-point image with the same number of scatter points elsewhere
+//   kind 4: set_exam_info with the same energy window           kind 5: set_use_cache(!cache), set_use_cache(cache)
+static const int n_scatter_history_kinds = 6;
+
+static void
+scenario_scatter_history(vh::Rng& rng, int T1, int T2, int kind, bool tiny = false)
+{
+  const ScatterCfg cfg = make_scatter_cfg(rng, tiny);
+  // another placement of the same scatter-point values
+  shared_ptr<Vox> sp2(new Vox(*cfg.sp));
+  {
+    std::vector<float> v(sp2->begin_all(), sp2->end_all());
+    bool changed = false;
+    for (int attempt = 0; attempt < 20 && !changed; ++attempt)
+      {
+        for (std::size_t i = v.size(); i > 1; --i)
+          std::swap(v[i - 1], v[rng.range(0, static_cast<int>(i) - 1)]);
+        changed = !std::equal(v.begin(), v.end(), cfg.sp->begin_all());
+      }
+    std::copy(v.begin(), v.end(), sp2->begin_all());
+  }
+  const bool cache = rng.range(0, kind == 1 ? 7 : 4) != 0;
+  struct Out
+  {
+    bool ok = false;
+    std::string error;
+    std::vector<float> bins[2];
+    std::vector<double> totals[2];
+  };
+  auto configure = [&](ScatterSim& s, const shared_ptr<Vox>& sp) {
+    s.set_randomly_place_scatter_points(false);
+    s.set_attenuation_threshold(0.01F);
+    s.set_use_cache(cache);
+    s.set_template_proj_data_info(*cfg.pdi);
+    s.set_exam_info(*cfg.exam);
+    s.set_activity_image_sptr(cfg.act);
+    s.set_density_image_sptr(cfg.att);
+    s.set_density_image_for_scatter_points_sptr(sp);
+  };
+  auto process = [&](ScatterSim& s, std::vector<float>& bins, std::vector<double>& totals) {
+    shared_ptr<ProjDataInMemory> o(new ProjDataInMemory(s.get_exam_info_sptr(), s.get_template_proj_data_info_sptr()->create_shared_clone()));
+    s.set_output_proj_data_sptr(o);
+    s.totals.clear();
+    if (s.process_data() != Succeeded::yes)
+      throw std::runtime_error("process_data did not succeed");
+    bins.assign(o->begin_all(), o->end_all());
+    totals = s.totals;
+  };
+  // with == false: a fresh object with the final configuration, used once (result in slot 1)
+  auto run = [&](int ta, int tb, bool with_history, bool trace) {
+    Out o;
+    try
+      {
+        ScatterSim s;
+        if (!with_history)
+          {
+            stir::set_num_threads(tb);
+            configure(s, kind == 3 ? sp2 : cfg.sp);
+            if (s.set_up() != Succeeded::yes)
+              throw std::runtime_error("set_up failed");
+            process(s, o.bins[1], o.totals[1]);
+            o.ok = true;
+            return o;
+          }
+        stir::set_num_threads(ta);
+        configure(s, cfg.sp);
+        if (trace)
+          {
+            g_sc_reads = 0;
+            g_sc_hits = 0;
+            start_trace();
+            mark_threads(ta);
+          }
+        if (s.set_up() != Succeeded::yes)
+          throw std::runtime_error("set_up failed");
+        process(s, o.bins[0], o.totals[0]);
+        switch (kind)
+          {
+          case 1:
+            s.set_template_proj_data_info(*cfg.pdi);
+            break;
+          case 2:
+            s.set_activity_image_sptr(shared_ptr<Vox>(new Vox(*cfg.act)));
+            s.set_density_image_sptr(shared_ptr<Vox>(new Vox(*cfg.att)));
+            s.set_density_image_for_scatter_points_sptr(shared_ptr<Vox>(new Vox(*cfg.sp)));
+            break;
+          case 3:
+            s.set_density_image_for_scatter_points_sptr(sp2);
+            break;
+          case 4:
+            s.set_exam_info(*cfg.exam);
+            break;
+          case 5:
+            s.set_use_cache(!cache);
+            s.set_use_cache(cache);
+            break;
+          default:
+            break;
+          }
+        stir::set_num_threads(tb);
+        if (trace)
+          mark_threads(tb);
+        // (kind 5 without set_up reads a cache that was never allocated, single-threaded as well: finding of C16, not repeated here)
+        if (kind != 0)
+          if (s.set_up() != Succeeded::yes)
+            throw std::runtime_error("second set_up failed");
+        process(s, o.bins[1], o.totals[1]);
+        if (trace)
+          {
+            g_logging = false;
+            g_log.push_back(Event{ 0, cache ? "sc.act.reads" : "sc.nocache", g_sc_reads.load(), static_cast<int>(g_sc_hits.load()) });
+            emit_trace("scatter.history", 0, 0, 0);
+          }
+        o.ok = true;
+      }
+    catch (std::exception& e)
+      {
+        g_logging = false;
+        o.error = std::string("exception: ") + e.what();
+      }
+    catch (...)
+      {
+        g_logging = false;
+        o.error = "exception";
+      }
+    return o;
+  };
+  const std::string ctx = "scatter.history kind " + std::to_string(kind) + (cache ? ", cache enabled" : ", cache disabled") + ", threads " + std::to_string(T1)
+                          + " then " + std::to_string(T2);
+  Out first = run(1, 1, false, false); // final configuration when kind == 3
+  Out ref0;                            // the first configuration
+  if (kind == 3)
+    {
+      // (a fresh single-thread object with the first configuration)
+      ScatterSim s;
+      stir::set_num_threads(1);
+      try
+        {
+          configure(s, cfg.sp);
+          if (s.set_up() != Succeeded::yes)
+            throw std::runtime_error("set_up failed");
+          process(s, ref0.bins[1], ref0.totals[1]);
+          ref0.ok = true;
+        }
+      catch (std::exception& e)
+        {
+          ref0.error = e.what();
+        }
+    }
+  else
+    ref0 = first;
+  ++oracle_checks;
+  if (!first.ok || !ref0.ok)
+    {
+      fail(ctx + ": single-thread reference run failed: " + first.error + ref0.error);
+      stir::set_num_threads(1);
+      return;
+    }
+  auto compare = [&](const Out& o, const std::string& who) {
+    ++oracle_checks;
+    if (!o.ok)
+      {
+        fail(ctx + ": " + who + ": " + o.error + " where fresh single-thread objects succeeded");
+        return;
+      }
+    for (int run_no = 0; run_no < 2; ++run_no)
+      {
+        const Out& r = run_no == 0 ? ref0 : first;
+        const std::string which = who + ", process_data " + std::to_string(run_no + 1);
+        ++oracle_checks;
+        if (o.bins[run_no].size() != r.bins[1].size())
+          fail(ctx + ": " + which + ": output size differs");
+        else
+          for (std::size_t i = 0; i < r.bins[1].size(); ++i)
+            if (!(o.bins[run_no][i] == r.bins[1][i]))
+              {
+                fail(ctx + ": " + which + ": bin " + std::to_string(i) + " = " + vh::hex(o.bins[run_no][i]) + " vs " + vh::hex(r.bins[1][i])
+                     + " from a fresh single-thread object");
+                break;
+              }
+        ++oracle_checks;
+        if (o.totals[run_no].size() != r.totals[1].size())
+          fail(ctx + ": " + which + ": number of viewgrams processed differs");
+        else
+          for (std::size_t i = 0; i < r.totals[1].size(); ++i)
+            if (!(std::fabs(o.totals[run_no][i] - r.totals[1][i]) <= 1e-12 * std::fabs(r.totals[1][i])))
+              {
+                fail(ctx + ": " + which + ": total scatter of viewgram " + std::to_string(i) + " = " + vh::hex(o.totals[run_no][i]) + " vs "
+                     + vh::hex(r.totals[1][i]));
+                break;
+              }
+      }
+  };
+  compare(run(1, 1, true, false), "the same history with one thread");
+  compare(run(T1, T2, true, true), "the history with threads");
+  stir::set_num_threads(1);
+}
+
+// ================================================================================================================================
+// scenario family `listmode`: PoissonLogLikelihoodWithLinearModelForMeanAndListModeDataWithProjMatrixByBin on synthetic list-mode data
+// held in memory (LM_distributable_computation: per-thread images, per-thread rows, reduction), with and without cache files.
+// (The synthetic list-mode classes are those of harness/c14_lm_histogram.cxx, without the raw-bin events.)
+// ================================================================================================================================
+namespace lm
+{
+struct Rec
+{
+  bool is_time = false;
+  unsigned long ms = 0;
+  bool prompt = true;
+  int d1 = 0, r1 = 0, d2 = 1, r2 = 0, tp = 0;
+};
+
+struct SynEvent : public CListEventCylindricalScannerWithDiscreteDetectors
+{
+  typedef CListEventCylindricalScannerWithDiscreteDetectors base;
+  explicit SynEvent(const shared_ptr<const ProjDataInfo>& pdi)
+      : base(pdi)
+  {}
+  bool prompt = true;
+  DetectionPositionPair<> dp;
+  bool is_prompt() const override { return prompt; }
+  void get_detection_position(DetectionPositionPair<>& d) const override { d = dp; }
+  void set_detection_position(const DetectionPositionPair<>& d) override { dp = d; }
+};
+
+struct SynTime : public ListTime
+{
+  unsigned long ms = 0;
+  unsigned long get_time_in_millisecs() const override { return ms; }
+  Succeeded set_time_in_millisecs(const unsigned long t) override
+  {
+    ms = t;
+    return Succeeded::yes;
+  }
+};
+
+struct SynRecord : public CListRecord
+{
+  explicit SynRecord(const shared_ptr<const ProjDataInfo>& pdi)
+      : e(pdi)
+  {}
+  bool istime = false;
+  SynTime t;
+  SynEvent e;
+  bool is_time() const override { return istime; }
+  bool is_event() const override { return !istime; }
+  ListEvent& event() override { return e; }
+  const ListEvent& event() const override { return e; }
+  ListTime& time() override { return t; }
+  const ListTime& time() const override { return t; }
+  void load(const Rec& r)
+  {
+    istime = r.is_time;
+    if (r.is_time)
+      t.ms = r.ms;
+    else
+      {
+        e.prompt = r.prompt;
+        e.dp = DetectionPositionPair<>(DetectionPosition<>(r.d1, r.r1, 0), DetectionPosition<>(r.d2, r.r2, 0), r.tp);
+      }
+  }
+};
+
+struct SynLM : public ListModeData
+{
+  std::vector<Rec> recs;
+  mutable std::size_t pos = 0;
+  std::vector<std::size_t> saved;
+  SynLM(const shared_ptr<const ProjDataInfo>& pdi, const std::vector<Rec>& r)
+      : recs(r)
+  {
+    shared_ptr<ExamInfo> ei(new ExamInfo);
+    ei->imaging_modality = ImagingModality::PT;
+    this->exam_info_sptr = ei;
+    this->set_proj_data_info_sptr(pdi);
+  }
+  std::string get_name() const override { return "verif-synthetic-listmode"; }
+  Succeeded reset() override
+  {
+    pos = 0;
+    return Succeeded::yes;
+  }
+  SavedPosition save_get_position() override
+  {
+    saved.push_back(pos);
+    return static_cast<SavedPosition>(saved.size() - 1);
+  }
+  Succeeded set_get_position(const SavedPosition& p) override
+  {
+    if (p >= saved.size())
+      return Succeeded::no;
+    pos = saved[p];
+    return Succeeded::yes;
+  }
+  bool has_delayeds() const override { return true; }
+
+protected:
+  shared_ptr<ListRecord> get_empty_record_helper_sptr() const override
+  {
+    return shared_ptr<ListRecord>(new SynRecord(this->get_proj_data_info_sptr()));
+  }
+  Succeeded get_next(ListRecord& r) const override
+  {
+    if (pos >= recs.size())
+      return Succeeded::no;
+    static_cast<SynRecord&>(r).load(recs[pos++]);
+    return Succeeded::yes;
+  }
+};
+
+typedef PoissonLogLikelihoodWithLinearModelForMeanAndListModeDataWithProjMatrixByBin<Image> LMBase;
+
+// the file-reading part of post_processing() switched off, so that the keys without a setter can be given through the object's own keymap
+struct LMObj : public LMBase
+{
+  bool post_processing() override { return false; }
+  bool set_keys(int frame_num, long num_events_to_use)
+  {
+    std::ostringstream par;
+    par << "PoissonLogLikelihoodWithLinearModelForMeanAndListModeDataWithProjMatrixByBin Parameters:=\n";
+    par << "time frame number := " << frame_num << "\n";
+    par << "num_events_to_use := " << num_events_to_use << "\n";
+    par << "End PoissonLogLikelihoodWithLinearModelForMeanAndListModeDataWithProjMatrixByBin Parameters:=\n";
+    std::istringstream in(par.str());
+    return this->parse(in);
+  }
+};
+} // namespace lm
+
+static std::string g_lm_dir;
+
+static void
+clean_lm_dir()
+{
+  if (DIR* d = opendir(g_lm_dir.c_str()))
+    {
+      while (dirent* e = readdir(d))
+        {
+          const std::string n = e->d_name;
+          if (n != "." && n != "..")
+            unlink((g_lm_dir + "/" + n).c_str());
+        }
+      closedir(d);
+    }
+}
+
+// thr: the thread counts of the successive uses of ONE objective function ({T}: plain comparison; {N, M, N}: rethread).
+static void
+scenario_listmode(vh::Rng& rng, const std::vector<int>& thr, bool tiny)
+{
+  Problem p = make_problem(rng, tiny);
+  const int N = p.pdi->get_scanner_ptr()->get_num_detectors_per_ring(), R = p.pdi->get_scanner_ptr()->get_num_rings();
+  const int tp_half = p.tof ? 2 : 0;
+  // events
+  std::vector<lm::Rec> recs;
+  const int n_ev = tiny ? rng.range(3, 8) : rng.range(150, 400);
+  long now = 0;
+  {
+    lm::Rec t;
+    t.is_time = true;
+    t.ms = 0;
+    recs.push_back(t);
+  }
+  for (int i = 0; i < n_ev; ++i)
+    {
+      if (rng.range(0, 19) == 0)
+        {
+          lm::Rec t;
+          t.is_time = true;
+          now += rng.range(1, 50);
+          t.ms = static_cast<unsigned long>(now);
+          recs.push_back(t);
+        }
+      lm::Rec r;
+      r.prompt = rng.range(0, 5) != 0;
+      r.d1 = rng.range(0, N - 1);
+      do
+        r.d2 = rng.range(0, N - 1);
+      while (r.d2 == r.d1);
+      r.r1 = rng.range(0, R - 1);
+      r.r2 = rng.range(0, R - 1);
+      r.tp = rng.range(-tp_half, tp_half);
+      recs.push_back(r);
+    }
+  const std::size_t uses = thr.size();
+  std::vector<shared_ptr<Image>> xs;
+  for (std::size_t k = 0; k < uses; ++k)
+    {
+      xs.push_back(shared_ptr<Image>(p.image->clone()));
+      fill_image(*xs[k], rng, true);
+    }
+  shared_ptr<Image> dir(p.image->get_empty_copy());
+  fill_image(*dir, rng, true);
+  shared_ptr<ProjData> add, norm;
+  if (rng.range(0, 2) != 0)
+    {
+      add.reset(new ProjDataInMemory(p.exam, p.pdi));
+      fill_data(*add, rng, 1, 3);
+    }
+  if (rng.coin())
+    {
+      norm.reset(new ProjDataInMemory(p.exam, p.pdi->is_tof_data() ? p.pdi->create_non_tof_clone() : p.pdi->create_shared_clone()));
+      fill_data(*norm, rng, 1, 3);
+    }
+  const int nsub = tiny ? 1 : rng.range(1, 3);
+  // cache files: none / several batches / one batch
+  const int ck = rng.range(0, 2);
+  const unsigned long cache = ck == 0 ? 0UL : ck == 1 ? static_cast<unsigned long>(std::max(1, n_ev / rng.range(2, 5))) : static_cast<unsigned long>(n_ev + 10);
+  std::string ctx = "listmode (threads";
+  for (int t : thr)
+    ctx += " " + std::to_string(t);
+  ctx += std::string("; ") + (cache == 0 ? "no cache files" : "cache files of " + std::to_string(cache) + " events") + ", " + std::to_string(n_ev) + " events, "
+         + std::to_string(nsub) + " subsets)";
+
+  struct Res
+  {
+    bool ok = false;
+    std::string error;
+    std::vector<std::string> names;
+    std::vector<shared_ptr<Image>> images;
+    std::vector<double> scales;
+    std::vector<double> values;
+  };
+  auto configure = [&](lm::LMObj& obj) {
+    obj.set_input_data(shared_ptr<lm::SynLM>(new lm::SynLM(p.pdi, recs)));
+    shared_ptr<ProjMatrixByBinUsingRayTracing> pm(new ProjMatrixByBinUsingRayTracing);
+    pm->set_do_symmetry_90degrees_min_phi(p.flags & 1);
+    pm->set_do_symmetry_180degrees_min_phi(p.flags & 2);
+    pm->set_do_symmetry_swap_segment(p.flags & 4);
+    pm->set_num_tangential_LORs(1 + (p.flags & 1));
+    pm->enable_cache(true);
+    obj.set_proj_matrix(pm);
+    if (add)
+      obj.set_additive_proj_data_sptr(add);
+    if (norm)
+      obj.set_normalisation_sptr(shared_ptr<BinNormalisation>(new BinNormalisationFromProjData(norm)));
+    obj.set_use_subset_sensitivities(true);
+    obj.set_num_subsets(nsub);
+    obj.set_skip_balanced_subsets(true);
+    obj.frame_defs = TimeFrameDefinitions();
+    if (!obj.set_keys(1, 0))
+      throw std::runtime_error("parse");
+    obj.set_cache_path(g_lm_dir);
+    obj.set_cache_max_size(cache);
+    obj.set_recompute_cache(true);
+  };
+  auto ask = [&](lm::LMObj& obj, const Image& x, Res& r) {
+    for (int s = 0; s < nsub; ++s)
+      {
+        const std::string tag = "[subset " + std::to_string(s) + "/" + std::to_string(nsub) + "]";
+        auto add_image = [&](const std::string& name, shared_ptr<Image> im, double scale) {
+          r.names.push_back(name + tag);
+          r.images.push_back(im);
+          r.scales.push_back(scale);
+        };
+        r.values.push_back(obj.compute_objective_function_without_penalty(x, s));
+        shared_ptr<Image> sens(x.get_empty_copy());
+        // (public in the base class)
+        static_cast<PoissonLogLikelihoodWithLinearModelForMean<Image>&>(obj).add_subset_sensitivity(*sens, s);
+        add_image("add_subset_sensitivity", sens, 0);
+        add_image("subset sensitivity computed by set_up", shared_ptr<Image>(obj.get_subset_sensitivity(s).clone()), 0);
+        shared_ptr<Image> gps(x.get_empty_copy());
+        obj.compute_sub_gradient_without_penalty_plus_sensitivity(*gps, x, s);
+        add_image("list-mode sub-gradient plus sensitivity", gps, 0);
+        shared_ptr<Image> grad(x.get_empty_copy());
+        obj.compute_sub_gradient_without_penalty(*grad, x, s);
+        add_image("list-mode sub-gradient", grad, max_abs(*gps) + max_abs(*sens));
+        shared_ptr<Image> hess(x.get_empty_copy());
+        if (obj.accumulate_sub_Hessian_times_input_without_penalty(*hess, x, *dir, s) != Succeeded::yes)
+          r.error = "accumulate_sub_Hessian_times_input failed";
+        add_image("list-mode accumulate_sub_Hessian_times_input", hess, 0);
+      }
+    r.ok = r.error.empty();
+  };
+  std::vector<Res> refs(uses), par(uses);
+  // references: a fresh objective function per use, one thread
+  stir::set_num_threads(1);
+  for (std::size_t k = 0; k < uses; ++k)
+    {
+      try
+        {
+          lm::LMObj obj;
+          configure(obj);
+          shared_ptr<Image> target(p.image->clone());
+          if (obj.set_up(target) != Succeeded::yes)
+            throw std::runtime_error("set_up failed");
+          ask(obj, *xs[k], refs[k]);
+        }
+      catch (std::exception& e)
+        {
+          refs[k].ok = false;
+          refs[k].error = std::string("exception: ") + e.what();
+        }
+      clean_lm_dir();
+    }
+  ++oracle_checks;
+  for (std::size_t k = 0; k < uses; ++k)
+    if (!refs[k].ok)
+      {
+        fail(ctx + ": single-thread reference run failed: " + refs[k].error);
+        return;
+      }
+  // the live object
+  std::size_t k_now = 0;
+  try
+    {
+      stir::set_num_threads(thr[0]);
+      lm::LMObj obj;
+      configure(obj);
+      start_trace();
+      mark_threads(thr[0]);
+      shared_ptr<Image> target(p.image->clone());
+      if (obj.set_up(target) != Succeeded::yes)
+        throw std::runtime_error("set_up failed");
+      int slots = thr[0];
+      for (std::size_t k = 0; k < uses; ++k)
+        {
+          k_now = k;
+          const int T = thr[k];
+          stir::set_num_threads(T);
+          mark_threads(T);
+          const bool again = T > slots || (k > 0 && T != slots && rng.range(0, 3) == 0);
+          if (again)
+            {
+              if (obj.set_up(target) != Succeeded::yes)
+                throw std::runtime_error("second set_up failed");
+              slots = T;
+            }
+          ask(obj, *xs[k], par[k]);
+        }
+      g_drop_table_events = true;
+      emit_trace(uses == 1 ? "listmode" : "rethread.listmode", 0, 0, 0);
+      g_drop_table_events = false;
+    }
+  catch (std::exception& e)
+    {
+      g_logging = false;
+      par[k_now].ok = false;
+      par[k_now].error = std::string("exception: ") + e.what();
+    }
+  clean_lm_dir();
+  stir::set_num_threads(1);
+  for (std::size_t k = 0; k < uses; ++k)
+    {
+      const std::string who = ctx + ", use " + std::to_string(k + 1) + " with " + std::to_string(thr[k]) + " threads";
+      ++oracle_checks;
+      if (!par[k].ok)
+        {
+          fail(who + ": the list-mode objective function failed (" + par[k].error + ") where the single-thread run succeeded");
+          continue;
+        }
+      for (std::size_t i = 0; i < refs[k].values.size(); ++i)
+        {
+          ++oracle_checks;
+          // - sum over the events of log(estimated mean) - sensitivity . image in double precision: a lost or duplicated event changes it by |log| ~ 1
+          if (!(std::fabs(refs[k].values[i] - par[k].values[i]) <= 1e-7 * std::fabs(refs[k].values[i]) + 1e-6))
+            fail(who + ": value of subset " + std::to_string(i) + " " + vh::hex(par[k].values[i]) + " vs single-thread " + vh::hex(refs[k].values[i]));
+        }
+      for (std::size_t i = 0; i < refs[k].images.size(); ++i)
+        {
+          ++oracle_checks;
+          const double mx = std::max(max_abs(*refs[k].images[i]), refs[k].scales[i]);
+          auto ia = par[k].images[i]->begin_all_const();
+          for (auto ib = refs[k].images[i]->begin_all_const(); ib != refs[k].images[i]->end_all_const(); ++ib, ++ia)
+            if (!(std::fabs(static_cast<double>(*ia) - *ib) <= 5e-5 * mx + 1e-30))
+              {
+                fail(who + ": " + refs[k].names[i] + " differs from the single-thread result beyond reassociation: " + vh::hex(*ia) + " vs " + vh::hex(*ib)
+                     + " (scale " + vh::hex(mx) + ")");
+                break;
+              }
+        }
+    }
+}
+
+// ================================================================================================================================
+// clear_cache() of the system matrix while other threads use the cache.  Run in a child process (the harness started again with
+// `child-clearcache`): a crash or a hang of the library there is reported by the parent as a verdict instead of ending the whole run.
+// ================================================================================================================================
+static int
+child_clear_cache(uint64_t seed, int T)
+{
+  alarm(100);
+  vh::Rng rng(seed);
+  Problem p = make_problem(rng, false);
+  shared_ptr<ProjMatrixByBinUsingRayTracing> ref = make_matrix(p, false);
+  shared_ptr<ProjMatrixByBinUsingRayTracing> par = make_matrix(p, true);
+  if (rng.coin())
+    par->store_only_basic_bins_in_cache(rng.coin());
+  std::vector<Bin> bins;
+  for (int s = p.pdi->get_min_segment_num(); s <= p.pdi->get_max_segment_num(); ++s)
+    for (int a = p.pdi->get_min_axial_pos_num(s); a <= p.pdi->get_max_axial_pos_num(s); ++a)
+      for (int v = 0; v < p.pdi->get_num_views(); ++v)
+        for (int tp = -2; tp <= 2; ++tp)
+          bins.push_back(Bin(s, v, a, tp, p.tof ? rng.range(p.pdi->get_min_tof_pos_num(), p.pdi->get_max_tof_pos_num()) : 0));
+  std::vector<Bin> work;
+  for (int rep = 0; rep < 6; ++rep)
+    work.insert(work.end(), bins.begin(), bins.end());
+  for (std::size_t i = work.size(); i > 1; --i)
+    std::swap(work[i - 1], work[rng.range(0, static_cast<int>(i) - 1)]);
+  if (work.size() > 3000)
+    work.resize(3000);
+  std::vector<char> clear_here(work.size(), 0);
+  for (auto& c : clear_here)
+    c = rng.range(0, 19) == 0;
+  std::vector<ProjMatrixElemsForOneBin> refrows(work.size());
+  stir::set_num_threads(1);
+  for (std::size_t i = 0; i < work.size(); ++i)
+    {
+      ref->get_proj_matrix_elems_for_one_bin(refrows[i], work[i]);
+      refrows[i].sort();
+    }
+  stir::set_num_threads(T);
+  g_seed = seed;
+  g_perturb_only = true;
+  std::atomic<int> bad(0);
+#pragma omp parallel for schedule(dynamic)
+  for (int i = 0; i < static_cast<int>(work.size()); ++i)
+    {
+      if (clear_here[i])
+        par->clear_cache();
+      ProjMatrixElemsForOneBin row;
+      par->get_proj_matrix_elems_for_one_bin(row, work[i]);
+      row.sort();
+      bool same = row.size() == refrows[i].size();
+      if (same)
+        {
+          auto a = refrows[i].begin();
+          for (auto b = row.begin(); b != row.end(); ++b, ++a)
+            if (a->get_coords() != b->get_coords() || std::fabs(a->get_value() - b->get_value()) > 1e-4F * std::fabs(a->get_value()) + 1e-7F)
+              same = false;
+        }
+      if (!same)
+        ++bad;
+    }
+  return bad ? 3 : 0;
+}
+
+static std::string g_self;
+
+static void
+scenario_clear_cache(vh::Rng& rng, int T, const char* seed_text, const char* tier)
+{
+  const std::string sub = std::to_string(rng.next() % 1000000007ULL), threads = std::to_string(T);
+  const char* av[] = { g_self.c_str(), seed_text, tier, "-", "-", "child-clearcache", threads.c_str(), sub.c_str(), nullptr };
+  pid_t pid = 0;
+  ++oracle_checks;
+  if (posix_spawn(&pid, g_self.c_str(), nullptr, nullptr, const_cast<char* const*>(av), environ) != 0)
+    {
+      fail("clear_cache: the child process could not be started");
+      return;
+    }
+  int status = 0;
+  waitpid(pid, &status, 0);
+  const std::string ctx = "ProjMatrixByBin::clear_cache() called by some of " + threads + " threads while they all read rows through the cache of one matrix: ";
+  // one class of input (stable key), whatever the symptom
+  std::string symptom;
+  if (WIFSIGNALED(status))
+    symptom = WTERMSIG(status) == SIGALRM ? "no result after 100 s (threads hang)" : "the process died with signal " + std::to_string(WTERMSIG(status));
+  else if (WIFEXITED(status) && WEXITSTATUS(status) == 3)
+    symptom = "a row differs from the directly computed row";
+  else if (!(WIFEXITED(status) && WEXITSTATUS(status) == 0))
+    symptom = "the process ended with status " + std::to_string(status);
+  if (!symptom.empty())
+    {
+      ++oracle_fails;
+      std::fprintf(orc, "KNOWN-CANDIDATE clear_cache:concurrent-with-readers %s%s (child: seed %s)\n", ctx.c_str(), symptom.c_str(), sub.c_str());
+    }
+}
+
+// ================================================================================================================================
+// the default number of threads (num_threads.cxx): get_default_num_threads / set_num_threads() / set_default_num_threads with and
+// without OMP_NUM_THREADS, answered by the executable model as well; must run before anything else calls set_num_threads
+// (the function keeps a static `already set once`).
+// ================================================================================================================================
+static void
+scenario_default_threads(vh::Rng& rng)
+{
+  const int nprocs = omp_get_num_procs();
+  const std::string np = std::to_string(nprocs);
+  auto check_parallel = [&](const std::string& what, int expected) {
+    int seen = 0;
+#pragma omp parallel
+    {
+#pragma omp single
+      seen = omp_get_num_threads();
+    }
+    ++oracle_checks;
+    if (seen != expected || stir::get_max_num_threads() != expected)
+      fail("default_threads: " + what + ": a parallel region runs " + std::to_string(seen) + " threads and get_max_num_threads() = "
+           + std::to_string(stir::get_max_num_threads()) + ", expected " + std::to_string(expected));
+  };
+  // without OMP_NUM_THREADS
+  unsetenv("OMP_NUM_THREADS");
+  op("nt default " + np + " none", std::to_string(stir::get_default_num_threads()));
+  // with OMP_NUM_THREADS
+  const int e1 = rng.range(2, 9);
+  setenv("OMP_NUM_THREADS", std::to_string(e1).c_str(), 1);
+  op("nt default " + np + " " + std::to_string(e1), std::to_string(stir::get_default_num_threads()));
+  // the first set_num_threads() of the process takes the default
+  stir::set_num_threads();
+  op("nt set 0 " + np + " " + std::to_string(e1), "max " + std::to_string(stir::get_max_num_threads()));
+  check_parallel("first set_num_threads() with OMP_NUM_THREADS=" + std::to_string(e1), e1);
+  // a whole computation under the default number of threads
+  scenario_project(rng, e1, false);
+  // later calls without argument keep what was set
+  const int e2 = rng.range(2, 9);
+  stir::set_num_threads(e2);
+  op("nt set " + std::to_string(e2) + " " + np + " " + std::to_string(e1), "max " + std::to_string(stir::get_max_num_threads()));
+  stir::set_num_threads();
+  op("nt set 0 " + np + " " + std::to_string(e1), "max " + std::to_string(stir::get_max_num_threads()));
+  check_parallel("set_num_threads() after set_num_threads(" + std::to_string(e2) + ")", e2);
+  // set_default_num_threads goes back to the default, whatever was set
+  const int e3 = rng.range(2, 9);
+  setenv("OMP_NUM_THREADS", std::to_string(e3).c_str(), 1);
+  stir::set_default_num_threads();
+  op("nt setdefault " + np + " " + std::to_string(e3), "max " + std::to_string(stir::get_max_num_threads()));
+  check_parallel("set_default_num_threads() with OMP_NUM_THREADS=" + std::to_string(e3), e3);
+  unsetenv("OMP_NUM_THREADS");
+  stir::set_default_num_threads();
+  op("nt setdefault " + np + " none", "max " + std::to_string(stir::get_max_num_threads()));
+  check_parallel("set_default_num_threads() without OMP_NUM_THREADS", stir::get_default_num_threads());
+  stir::set_num_threads(1);
+  op("nt set 1 " + np + " none", "max " + std::to_string(stir::get_max_num_threads()));
+}
+
 int
 main(int argc, char** argv)
 {
   if (argc < 5)
     return 2;
   vh::quiet();
+  omp_set_dynamic(0);
+  g_self = argv[0];
+  if (argc > 7 && std::string(argv[5]) == "child-clearcache")
+    return child_clear_cache(std::strtoull(argv[7], nullptr, 10), std::atoi(argv[6]));
   g_seed = std::strtoull(argv[1], nullptr, 10);
   vh::Rng rng(g_seed * 48271ULL + 18);
   const bool thorough = std::string(argv[2]) == "thorough";
   ops = std::fopen(argv[3], "w");
   out = std::fopen(argv[4], "w");
   orc = std::fopen((std::string(argv[4]) + ".oracle").c_str(), "w");
-  omp_set_dynamic(0);
   {
     const std::string opsname(argv[3]);
     const std::size_t slash = opsname.find_last_of('/');
     g_dir = (slash == std::string::npos ? std::string(".") : opsname.substr(0, slash)) + "/c18_files_" + argv[2];
     mkdir(g_dir.c_str(), 0777);
     wipe_dir();
+    g_lm_dir = g_dir + "/lm";
+    mkdir(g_lm_dir.c_str(), 0777);
+    clean_lm_dir();
   }
   const std::vector<int> threads = thorough ? std::vector<int>{ 2, 3, 4, 5, 8, 11, 16 } : std::vector<int>{ 2, 4, 7 };
   const int reps = thorough ? 12 : 3;
   // development aid: an optional 5th argument restricts the run to one scenario (the check never passes it)
   const std::string only = argc > 5 ? argv[5] : "";
   auto want = [&](const char* name) { return only.empty() || only == name; };
+  const bool timing = getenv("C18_TIMING") != nullptr; // development aid: wall time of every guarded scenario to stderr
+  auto guarded = [&](const std::string& what, const std::function<void()>& f) {
+    const double t0 = omp_get_wtime();
+    try
+      {
+        f();
+        if (timing)
+          std::fprintf(stderr, "[time] %-45s %.2f s\n", what.c_str(), omp_get_wtime() - t0);
+      }
+    catch (std::exception& e)
+      {
+        fail("exception in " + what + ": " + e.what());
+        g_logging = false;
+      }
+  };
+  // the default number of threads: before the first set_num_threads of the process
+  if (want("default_threads"))
+    guarded("default_threads", [&]() { scenario_default_threads(rng); });
+  // the new families use a generator of their own, so that the scenarios below see the same inputs as before they were added
+  vh::Rng rng2(g_seed * 69621ULL + 1818);
   for (int rep = 0; rep < reps; ++rep)
     for (int T : threads)
       {
@@ -1397,6 +2474,33 @@ main(int argc, char** argv)
             g_logging = false;
           }
       }
+  // thread-count changes on live objects, setter histories of the scatter simulation under threads
+  const int re_reps = thorough ? 5 : 1;
+  for (int rep = 0; rep < re_reps; ++rep)
+    for (int pr = 0; pr < 4; ++pr)
+      {
+        const int N = g_pairs[pr][0], M = g_pairs[pr][1];
+        const std::string tag = " " + std::to_string(N) + "->" + std::to_string(M);
+        if (want("rethread") || want("rethread.project"))
+          for (int k = 0; k < 2; ++k)
+            guarded("rethread.project" + tag, [&]() { scenario_rethread_project(rng2, N, M); });
+        if (want("rethread") || want("rethread.loglik"))
+          guarded("rethread.loglik" + tag, [&]() { scenario_rethread_loglik(rng2, N, M); });
+        if (want("rethread") || want("rethread.listmode"))
+          guarded("rethread.listmode" + tag, [&]() { scenario_listmode(rng2, std::vector<int>{ N, M, N }, false); });
+        if (want("rethread") || want("scatter.history"))
+          {
+            // (the setter that restarts the detector numbering twice: it is the one whose effect depends on the schedule)
+            static const int kinds[] = { 0, 1, 2, 3, 1, 4, 5 };
+            for (int kind : kinds)
+              guarded("scatter.history" + tag, [&]() { scenario_scatter_history(rng2, N, M, kind); });
+          }
+      }
+  // list-mode objective function, T threads vs 1 thread
+  for (int rep = 0; rep < (thorough ? 6 : 2); ++rep)
+    for (int T : threads)
+      if (want("listmode"))
+        guarded("listmode", [&]() { scenario_listmode(rng2, std::vector<int>{ T }, false); });
   // more threads than work items
   for (int rep = 0; rep < reps; ++rep)
     {
@@ -1410,8 +2514,23 @@ main(int argc, char** argv)
           fail(std::string("exception with more threads than work items: ") + e.what());
           g_logging = false;
         }
+      if (want("tiny"))
+        {
+          guarded("loglik on a tiny problem", [&]() { scenario_loglik(rng2, 16, true); });
+          guarded("loglik_full on a tiny problem", [&]() { scenario_loglik_full(rng2, 16, true); });
+          guarded("scatter on a tiny problem", [&]() { scenario_scatter(rng2, 16, true); });
+          guarded("scatter.history on a tiny problem", [&]() { scenario_scatter_history(rng2, 16, rng2.coin() ? 16 : 3, rng2.range(0, n_scatter_history_kinds - 1), true); });
+          guarded("listmode on a tiny problem", [&]() { scenario_listmode(rng2, std::vector<int>{ 16 }, true); });
+        }
     }
+  // clear_cache() against readers of the cache (child processes)
+  if (want("clear_cache"))
+    for (int rep = 0; rep < (thorough ? 24 : 8); ++rep)
+      scenario_clear_cache(rng2, rep % 3 == 0 ? 4 : rep % 3 == 1 ? 7 : 2, argv[1], argv[2]);
+  stir::set_num_threads(1);
   wipe_dir();
+  clean_lm_dir();
+  rmdir(g_lm_dir.c_str());
   rmdir(g_dir.c_str());
   std::fprintf(orc, "ORACLE-DONE checks=%ld fails=%ld\n", oracle_checks, oracle_fails);
   std::fclose(ops);
